@@ -118,11 +118,36 @@ Theorem both_halves_closed : forall s r e w ls,
 Proof. exact stapled_both. Qed.
 Print Assumptions both_halves_closed.
 
-(* after a first close that went any way at all, a second close consumes no label and returns normally *)
-Theorem second_close_prompt : forall t e w ls e2, fresh t w ->
+(* after a first close that went any way at all, a second close consumes no label and returns normally -- for every
+   transport without an asyncio adapter holding unflushed data *)
+Theorem second_close_prompt : forall t e w ls e2, fresh t w -> no_backlog (tr_base t) = true ->
   let '(r, w1, ls1) := tr_aclose t e w ls in tr_aclose t e2 w1 ls1 = (ROk, w1, ls1).
 Proof. exact tr_second_prompt. Qed.
 Print Assumptions second_close_prompt.
+
+(* F9 (observation on the asyncio socket adapter, see meta/notes/C14.md): with unflushed write data and a peer that does
+   not read, a close cancelled at the close waiter -- or aclose_forcefully -- marks the transport closing but does not
+   release the file descriptor, and a second close waits again *)
+Theorem second_close_prompt_adapter_backlog_refuted :
+  let '(r, w1, ls1) := base_aclose (BAdapter 0 true) env0 (world0 false) [XCancel; XCancel] in
+  r = RCancel /\ w_leaf w1 0 = true /\ w_flushed w1 0 = false /\
+  let '(r2, w2, ls2) := base_aclose (BAdapter 0 true) env0 w1 ls1 in r2 = RCancel /\ w_used w2 = 2.
+Proof. exact adapter_backlog_witness. Qed.
+Print Assumptions second_close_prompt_adapter_backlog_refuted.
+
+Theorem forced_close_adapter_backlog_keeps_fd :
+  let '(r, w1, ls1) := forceful (base_aclose (BAdapter 0 true)) env0 (world0 false) [] in
+  r = ROk /\ w_leaf w1 0 = true /\ w_flushed w1 0 = false.
+Proof. exact adapter_forced_witness. Qed.
+Print Assumptions forced_close_adapter_backlog_keeps_fd.
+
+(* ... while a close of that adapter that returns normally has released it (the peer drained the data, or the
+   connection broke: OSError swallowed), or found it closing already and changed nothing *)
+Theorem adapter_close_returns_released : forall i e w ls,
+  let '(r, w1, ls1) := base_aclose (BAdapter i true) e w ls in
+  r = ROk -> w_flushed w1 i = true \/ (w_leaf w i = true /\ w1 = w).
+Proof. exact adapter_flush_releases. Qed.
+Print Assumptions adapter_close_returns_released.
 
 Theorem wrap_failure_closes : forall c b e w ls,
   let '(r, w', ls') := tls_wrap c b e w ls in r <> ROk -> forall i, In i (leaves b) -> w_leaf w' i = true.
